@@ -23,6 +23,8 @@ pub struct PacketConn<RW: Read + Write> {
     // the previous packet of the current message was a full one, so the message still needs a
     // shorter (possibly empty) packet to terminate it
     last_full: bool,
+    // an error hit by a destructor that had to finish a response; reported by the next flush
+    deferred_err: Option<io::Error>,
 }
 
 impl<W: Read + Write> Write for PacketConn<W> {
@@ -40,6 +42,9 @@ impl<W: Read + Write> Write for PacketConn<W> {
     }
 
     fn flush(&mut self) -> io::Result<()> {
+        if let Some(e) = self.deferred_err.take() {
+            return Err(e);
+        }
         self.maybe_end_packet()?;
         self.rw.flush()
     }
@@ -58,6 +63,7 @@ impl<RW: Read + Write> PacketConn<RW> {
             to_write: vec![0, 0, 0, 0],
             seq: 0,
             last_full: false,
+            deferred_err: None,
             rw,
         }
     }
@@ -103,6 +109,14 @@ impl<W: Read + Write> PacketConn<W> {
 impl<W: Read + Write> PacketConn<W> {
     pub fn set_seq(&mut self, seq: u8) {
         self.seq = seq;
+    }
+
+    /// Remember an error that could not be returned where it happened (a writer's destructor);
+    /// the next `flush` fails with it.
+    pub(crate) fn defer_error(&mut self, e: io::Error) {
+        if self.deferred_err.is_none() {
+            self.deferred_err = Some(e);
+        }
     }
 }
 
